@@ -346,13 +346,21 @@ def o1_recovery_order(ctx):
     if sb is None:
         r.unrec(f, "collect into an ordered set", "src/storage/bitcask/utils.rs", "no Iterator::collect found")
     else:
-        for _, bb, t in calls_in([sb], "std::iter::Iterator::collect"):
-            targs = " ".join(t.get("callee_args") or [])
-            good = "std::collections::BTreeSet<u64>" in targs
-            r.add(f, "ids are collected into BTreeSet<u64> (numeric ascending order)", good, where(sb, bb), "collect::<%s>" % (t.get("callee_args") or ["?"])[-1])
         rets = [ret_origin(sb, d) for c, d, rb in ret_classes(sb, 0, lambda e: e.kind == "unwind") if c == "ok"]
-        good = bool(rets) and all(o is not None and origin_mentions(o, lambda x: x[0] == "call" and x[1] == "std::iter::Iterator::collect") and not origin_mentions(o, lambda x: x[0] == "call" and x[1] and x[1].split("::")[-1] in ("rev", "sort_by", "sort_by_key", "sort_unstable_by", "shuffle")) for o in rets)
-        r.add(f, "returns the set's own iterator (no reversal)", good, short_span(sb.span))
+        # idiom (a): the returned iterator is BTreeSet<u64>::into_iter of the collected set
+        # idiom (b): a Vec<u64> sorted by sort/sort_unstable on every path before it is returned
+        bt = [(bb, t) for _, bb, t in calls_in([sb], "std::iter::Iterator::collect") if "std::collections::BTreeSet<u64>" in " ".join(t.get("callee_args") or [])]
+        idiom_a = bool(rets) and all(o is not None and any(origin_mentions(o, lambda x, s_=(sb.path, bb): x[0] == "call" and x[3] == s_) for bb, t in bt) and not origin_mentions(o, lambda x: x[0] == "call" and x[1] and x[1].split("::")[-1] in ("rev", "sort_by", "sort_by_key", "sort_unstable_by", "shuffle", "collect") and x[3] not in [(sb.path, bb) for bb, t in bt]) for o in rets)
+        sorts = [(bb, t) for _, bb, t in calls_in([sb], "std::slice::<impl [T]>::sort_unstable", "std::slice::<impl [T]>::sort", "core::slice::<impl [T]>::sort_unstable", "alloc::slice::<impl [T]>::sort", "slice::sort", "slice::sort_unstable")]
+        idiom_b = False
+        if sorts and rets:
+            sv = {arg_origin(sb, t, 0)[1] for bb, t in sorts if arg_origin(sb, t, 0)[0] == "var"}
+            vec_u64 = all("std::vec::Vec<u64>" in sb.local_ty(l) for l in sv)
+            mentions = all(o is not None and origin_mentions(o, lambda x: x[0] == "var" and x[1] in sv) and not origin_mentions(o, lambda x: x[0] == "call" and x[1] and x[1].split("::")[-1] in ("rev", "shuffle")) for o in rets)
+            sbbs = {bb for bb, t in sorts}
+            must = not [c for c, d, rb in ret_classes(sb, 0, lambda e: e.kind == "unwind" or (e.src in sbbs and e.kind == "ret")) if c == "ok"]
+            idiom_b = bool(sv) and vec_u64 and mentions and must
+        r.add(f, "ids are ordered numerically ascending (BTreeSet<u64> iterator, or a sorted Vec<u64>)", idiom_a or idiom_b, short_span(sb.span), "idiom BTreeSet=%s sorted-Vec=%s" % (idiom_a, idiom_b))
         # ids are parsed as u64 (not compared as strings)
         pr = [t for _, bb, t in calls_in(sf, "core::str::<impl str>::parse", "str::parse", "std::str::FromStr::from_str")]
         good = any("u64" in " ".join(t.get("callee_args") or []) for t in pr) or any("u64" in (t.get("dest_ty") or "") for t in pr)
